@@ -13,6 +13,11 @@ namespace GeographicLib {
 
   using namespace std;
 
+  // The Carlson duplication loops below are capped at Math::digits() trips.
+  // The loop test gains a factor of 4 per trip so this limit is never reached
+  // for finite positive arguments ("Max 6 trips" for doubles); it merely stops
+  // the loops from spinning forever on infinite or all-zero arguments.
+
   /*
    * Implementation of methods given in
    *
@@ -33,7 +38,7 @@ namespace GeographicLib {
       y0 = y,
       z0 = z,
       mul = 1;
-    while (Q >= mul * fabs(An)) {
+    for (int trip = 0; trip < Math::digits() && Q >= mul * fabs(An); ++trip) {
       // Max 6 trips
       real lam = sqrt(x0)*sqrt(y0) + sqrt(y0)*sqrt(z0) + sqrt(z0)*sqrt(x0);
       An = (An + lam)/4;
@@ -138,7 +143,7 @@ namespace GeographicLib {
       mul = 1,
       mul3 = 1,
       s = 0;
-    while (Q >= mul * fabs(An)) {
+    for (int trip = 0; trip < Math::digits() && Q >= mul * fabs(An); ++trip) {
       // Max 7 trips
       real
         lam = sqrt(x0)*sqrt(y0) + sqrt(y0)*sqrt(z0) + sqrt(z0)*sqrt(x0),
@@ -188,7 +193,7 @@ namespace GeographicLib {
       z0 = z,
       mul = 1,
       s = 0;
-    while (Q >= mul * fabs(An)) {
+    for (int trip = 0; trip < Math::digits() && Q >= mul * fabs(An); ++trip) {
       // Max 7 trips
       real lam = sqrt(x0)*sqrt(y0) + sqrt(y0)*sqrt(z0) + sqrt(z0)*sqrt(x0);
       s += 1/(mul * sqrt(z0) * (z0 + lam));
